@@ -293,6 +293,7 @@ func c13CheckKeyDirs(c *Ctx, r *Result, outsRoot string, keys []string, dirs []s
 		r.violate(Violation{Kind: "correspondence", Key: "C13:driver", What: "keydirs reply: " + c13Short(reply), Input: keys, Broken: "driver"})
 		return false
 	}
+	c.Res.hist("hyp:keysSeparable:" + parts[0])
 	ents := strings.Split(parts[1], ",")
 	ok := len(ents) == len(keys)
 	var md []string
@@ -578,6 +579,13 @@ func c13DirectMappedX(c *Ctx, r *Result, idx int, seed int64, fixedKeys []string
 		}
 		outs.Keys = append(outs.Keys, k)
 		outs.Vals = append(outs.Vals, rec)
+	}
+	if wf, _, ok := c13Hyp(c, ps, outsRoot, params, outs.Vals[0], "0"); ok {
+		r.hist(fmt.Sprintf("mapped:hyp:wfParams:%v", wf))
+		if !wf {
+			r.violate(Violation{Kind: "correspondence", Key: "C13:hypothesis-fails-on-covered-run", Broken: "dest_injective_mapped (hypothesis wfParams)",
+				What: "wfParams is false for a signature the compiler accepted", Input: src})
+		}
 	}
 	cs := &c13Contents{}
 	mon := newC13Mon(ps)
